@@ -45,7 +45,7 @@ PROP = {
                   "(DISCOVER+REQUEST, REQUEST, DECLINE, RELEASE, one goroutine per message as server4 does || "
                   "add/update/remove static lease and reset_leases through the HTTP handlers || HostByIP, IPByHost, "
                   "MACByIP, Leases, status, WriteDiskConfig), whose end state must also hold every address and "
-                  "hardware address at most once.",
+                  "hardware address at most once. After a query-log program the records stored in the files must be in time order (the file reader searches by time). TestVFC05DHCPLastAddress lets two clients compete for the last free address (REQUEST for an offer || DISCOVER of another client, with static-lease calls in between): no address may be acknowledged to two clients, and leases.json must equal the table in memory at the end.",
     "level_note": "Schedule sampling, not schedule exploration: a missing lock is detected only if both accesses "
                   "happen in the same run. Queries enter at the dnsproxy handler boundary. DHCP configuration changes "
                   "(set_config, reset) are not driven (the statement names DHCP leases); DHCPv6 message handling is "
